@@ -17,6 +17,21 @@ EXC_NAMES = {"Exception", "ValueError", "KeyError", "IndexError", "TypeError", "
              "RuntimeError"}
 
 
+
+TRANSPARENT_DECORATORS = {"property", "staticmethod", "classmethod", "contextmanager", "abstractmethod", "abstractclassmethod",
+                          "abstractstaticmethod"}
+
+
+def check_decorators(node, qualname):
+    """A decorator replaces the function by whatever it returns: only the ones whose meaning the engine implements are
+    accepted; any other makes the function's behaviour unknown (out of subset), for a call and for verification alike."""
+    for d in getattr(node, "decorator_list", []):
+        if isinstance(d, ast.Name) and d.id in TRANSPARENT_DECORATORS:
+            continue
+        if isinstance(d, ast.Attribute) and d.attr in ("setter", "getter", "deleter"):
+            continue
+        raise OutOfSubset("%s is wrapped by the decorator %s, which may change its behaviour" % (qualname, ast.unparse(d)))
+
 class CMCall(object):
     """A call to a ``@contextmanager`` generator function of the repo, entered by ``with``."""
 
@@ -228,6 +243,7 @@ class CallMixin(object):
             env = self.bind_params(node, fv.module, args, kwargs, fv.closure)
             return self.eval(node.body, env)
         decos = [d.id for d in node.decorator_list if isinstance(d, ast.Name)]
+        check_decorators(node, fv.qualname)
         if "contextmanager" in decos and cm_body is None:
             return CMCall(fv, args, kwargs)
         c = self.registry.get(fv.qualname)
@@ -529,6 +545,7 @@ class CallMixin(object):
                         return EnumVal(cname, node.targets[0].id, v)
             raise PyRaise("ValueError", origin="not a valid %s" % cname)
         inst = Inst(cname, module=mname)
+        inst.constructed = True       # built on this path: fields never assigned hold the class-level defaults
         init = None
         c = cls
         while init is None and c is not None:
